@@ -25,7 +25,9 @@ import time
 
 VERIF = os.path.dirname(os.path.dirname(os.path.abspath(__file__)))
 REPO = os.environ.get("VERIF_REPO", "/repo")
-BUILD_ROOT = os.path.join(VERIF, "_build")
+BUILD_ROOT = os.environ.get("VERIF_BUILD_ROOT", os.path.join(VERIF, "_build"))
+# evidence/replay go to /verif unless a scratch repo is being checked (mutation trials)
+OUT_ROOT = VERIF if REPO == "/repo" and "VERIF_BUILD_ROOT" not in os.environ else BUILD_ROOT
 HARNESS_SRC = os.path.join(VERIF, "harness")
 
 CONFIGS = {
@@ -288,7 +290,57 @@ def run_harness(run, tier, seed, res, only_case=None):
     res.wall += time.time() - t_begin
 
 
+class PyLog:
+    """Event sink for script-driven runs (spec run dicts with a 'py' callable):
+    py(log, tier, seed) calls log.begin/end/violation exactly like a C++ harness."""
+
+    def __init__(self, run, res, seed):
+        self.run, self.res, self.seed = run, res, seed
+        self.label = run_label(run)
+        self.cur = None
+
+    def begin(self, case, params):
+        self.cur = (case, params)
+        self.res.events.append({"ev": "begin", "case": case, "params": params, "_run": self.label})
+
+    def end(self, case, sig, nontrivial, obs):
+        self.res.events.append({"ev": "end", "case": case, "sig": sig, "nontrivial": bool(nontrivial),
+                                "obs": obs, "_run": self.label})
+        self.cur = None
+
+    def violation(self, key, detail):
+        self.res.violations.append(dict(key=key, case=self.cur[0] if self.cur else None,
+                                        params=self.cur[1] if self.cur else None,
+                                        detail=detail, run=self.run, seed=self.seed))
+
+    def inconclusive(self, why):
+        self.res.inconclusive.append("%s: %s" % (self.label, why))
+
+
+def find_exe(cfg, name):
+    """path of an executable built in config cfg: harness bin/ first, then the repo's own targets"""
+    p = os.path.join(build_dir(cfg), "bin", name)
+    if os.path.exists(p):
+        return p
+    for root, dirs, files in os.walk(os.path.join(build_dir(cfg), "repo")):
+        if name in files and os.access(os.path.join(root, name), os.X_OK):
+            return os.path.join(root, name)
+    return None
+
+
+def san_env(extra=None):
+    env = dict(os.environ)
+    env.update(SAN_ENV)
+    env["GALOIS_DO_NOT_BIND_THREADS"] = "1"
+    env.pop("GALOIS_VERIF_TOPO", None)
+    if extra:
+        env.update({k: str(v) for k, v in extra.items()})
+    return env
+
+
 def run_label(run):
+    if not run.get("harness"):
+        return "py:" + run.get("name", "script")
     s = "%s[%s" % (run["harness"], run["cfg"])
     if run.get("topo"):
         s += " topo=" + run["topo"]
@@ -355,16 +407,16 @@ def summarize(prop, tier, seed, res, spec, wall, nviol_unlisted, known_hits, ext
         "wall_s": round(wall, 2),
         "violations": nviol_unlisted,
     }
-    os.makedirs(os.path.join(VERIF, "evidence"), exist_ok=True)
-    tmp = os.path.join(VERIF, "evidence", prop + ".json.tmp")
+    os.makedirs(os.path.join(OUT_ROOT, "evidence"), exist_ok=True)
+    tmp = os.path.join(OUT_ROOT, "evidence", prop + ".json.tmp")
     with open(tmp, "w") as f:
         json.dump(ev, f, indent=1, sort_keys=True)
-    os.replace(tmp, os.path.join(VERIF, "evidence", prop + ".json"))
+    os.replace(tmp, os.path.join(OUT_ROOT, "evidence", prop + ".json"))
     return ev
 
 
 def write_replay(prop, v, idx):
-    d = os.path.join(VERIF, "replay")
+    d = os.path.join(OUT_ROOT, "replay")
     os.makedirs(d, exist_ok=True)
     h = hashlib.sha1(v["key"].encode()).hexdigest()[:8]
     path = os.path.join(d, "%s-%s-%d.json" % (prop, h, idx))
@@ -423,12 +475,11 @@ def main(argv):
         tr = time.time()
         nv = len(res.violations)
         if r.get("py"):
-            r["py"](r, a.tier, a.seed, res)
+            r["py"](PyLog(r, res, a.seed), a.tier, a.seed)
         else:
             run_harness(r, a.tier, a.seed, res)
         log("run %s: %d events, %d new violation(s), %.0fs" %
-            (run_label(r) if r.get("harness") else r.get("name", "py"),
-             len(res.events), len(res.violations) - nv, time.time() - tr))
+            (run_label(r), len(res.events), len(res.violations) - nv, time.time() - tr))
 
     # route violations through known findings
     known = load_known()
@@ -453,7 +504,7 @@ def main(argv):
         idx += 1
         log("VIOLATION property=%s replay=%s key=%s" % (prop, path, v["key"]))
         det = json.dumps(v.get("detail"))[:1500]
-        log("  case=%s run=%s detail=%s" % (v.get("case"), run_label(v["run"]) if v["run"].get("harness") else "py", det))
+        log("  case=%s run=%s detail=%s" % (v.get("case"), run_label(v["run"]), det))
 
     # observation thresholds
     ev = summarize(prop, a.tier, a.seed, res, spec, time.time() - t0, len(seen_keys), known_hits)
